@@ -368,10 +368,7 @@ func init() {
 	})
 	check.RegisterProp("C19", func(tier string) []check.Job {
 		var jobs []check.Job
-		b := 1
-		if tier == "thorough" {
-			b = 2
-		}
+		b := 2
 		for _, mode := range []string{"200", "500", "error", "never"} {
 			for sh := 0; sh < 2; sh++ {
 				p, _ := json.Marshal(c19Params{Cap: 128, Mode: mode, Pairs: true, Shard: sh, Shards: 2})
